@@ -1,0 +1,22 @@
+//go:build verif
+
+package exec
+
+import "github.com/grailbio/bigslice/sliceio"
+
+// VerifShardReader opens the output of one root task (shard) of a result.
+func VerifShardReader(r *Result, shard int) sliceio.ReadCloser {
+	return r.sess.executor.Reader(r.tasks[shard], 0)
+}
+
+// VerifNumTasks is the number of root tasks of a result.
+func VerifNumTasks(r *Result) int { return len(r.tasks) }
+
+// VerifTaskStates returns the states of the root tasks of a result.
+func VerifTaskStates(r *Result) []TaskState {
+	out := make([]TaskState, len(r.tasks))
+	for i, t := range r.tasks {
+		out[i] = t.State()
+	}
+	return out
+}
